@@ -501,7 +501,13 @@ def check_exc_esc(ctx):
             ctx.violated('EXC-ESC', func, f'{cls_} can leave {qual}: '
                          f'{origin}', at=func.where(),
                          detail={'witness_chain': chain})
-        if not bad:
+        if not bad and ana.opaque_hits:
+            ctx.undecided('EXC-ESC', func, f'what can leave {qual} is '
+                          f'decided by the exit handler of a context '
+                          f'manager of the package: '
+                          f'{sorted(ana.opaque_hits)[0]}', at=func.where(),
+                          detail={'managers': sorted(ana.opaque_hits)})
+        elif not bad:
             ctx.holds('EXC-ESC', func, f'only {sorted(allowed)} can leave '
                       f'{qual} (from the raise sites and input conversions '
                       f'seen)', at=func.where(),
